@@ -153,6 +153,9 @@ def sendStoredLoop (c : C) : List (Nat × Pkt) → C × List (Nat × Pkt)
   | [] => (c, [])
   | (id, p) :: rest =>
     if p.sz c.cfg.pw > c.s.mpsSend then
+      -- fix: the abandoned exchange leaves no wait-set entry behind
+      let c := { c with s := { c.s with puback := del id c.s.puback, pubrec := del id c.s.pubrec,
+                                          pubcomp := del id c.s.pubcomp } }
       sendStoredLoop (releaseIfUsed c id) rest
     else
       let c := if c.s.sendMax.isSome then
@@ -164,6 +167,8 @@ def sendStoredLoop (c : C) : List (Nat × Pkt) → C × List (Nat × Pkt)
       (r.1, (id, p) :: r.2)
 
 def sendStored (c : C) : C :=
+  -- fix: the incomplete exchanges of the new connection are exactly the stored packets
+  let c := if c.s.sendMax.isSome then { c with s := { c.s with sendCount := 0 } } else c
   let r := sendStoredLoop c c.s.store
   { r.1 with s := { r.1.s with store := r.2 } }
 
@@ -679,7 +684,11 @@ def prV5PublishAlias (c : C) (p : Pkt) : C × Option Pkt :=
         | none => (c, some p)
         | some t =>
           match t.get a with
-          | some topic => (c, some { p with topic := topic, extracted := true })
+          | some topic =>
+            -- `add_extracted_topic_name` refuses a bound topic containing a wildcard (the
+            -- parser lets such topics into the table): reported as Topic Alias invalid
+            if hasWildcard topic then (handleV5Error c eAliasInvalid, none)
+            else (c, some { p with topic := topic, extracted := true })
           | none => (handleV5Error c eAliasInvalid, none)
   else match p.alias with
     | none => (c, some p)
@@ -945,17 +954,19 @@ def eraseStoredPublish (c : C) (id : Nat) : C :=
     releaseIfUsed (decSendCount c) id
   else c
 
-/-- `restore_packets` -/
+/-- `restore_packets`; fix (finding #24): the wait-set entry is made only for an entry whose
+    packet id could be registered -/
 def restoreOne (c : C) (p : Pkt) : C :=
   if p.kind = .publish ∧ p.qos = 0 then c
   else
     let id := p.pid.getD 0
-    let c := if p.kind = .pubrel then { c with s := { c.s with pubcomp := ins id c.s.pubcomp } }
-             else if p.qos = 2 then { c with s := { c.s with pubrec := ins id c.s.pubrec } }
-             else { c with s := { c.s with puback := ins id c.s.puback } }
     let r := register c id
     if r.1 then
-      (if storeHas id r.2.s.store then r.2 else { r.2 with s := { r.2.s with store := r.2.s.store ++ [(id, p)] } })
+      let c := r.2
+      let c := if p.kind = .pubrel then { c with s := { c.s with pubcomp := ins id c.s.pubcomp } }
+               else if p.qos = 2 then { c with s := { c.s with pubrec := ins id c.s.pubrec } }
+               else { c with s := { c.s with puback := ins id c.s.puback } }
+      (if storeHas id c.s.store then c else { c with s := { c.s with store := c.s.store ++ [(id, p)] } })
     else r.2
 
 def restorePackets (c : C) : List Pkt → C
